@@ -339,7 +339,24 @@ class EMNested(EMBase):
         return self.b
 
 
-EM_KINDS = [EMPlain, EMDerived, EMAlias, EMList, EMDict, EMWithNN, EMNested, EMWithNNPartial]
+class EMAliasFirst(EMBase):
+    # the two names of one tensor come BEFORE another tensor in the declared order (a list with one entry per
+    # unique tensor is then shorter than, and misaligned with, the list of names)
+    NAMES = ["b", "b2", "W"]
+
+    def __init__(self, W, b):
+        self.b = b
+        self.b2 = b
+        self.W = W
+
+    def _W(self):
+        return self.W
+
+    def _b(self):
+        return 0.5 * (self.b + self.b2)
+
+
+EM_KINDS = [EMPlain, EMDerived, EMAlias, EMList, EMDict, EMWithNN, EMNested, EMWithNNPartial, EMAliasFirst]
 
 
 class EMCallProxy(EditableModule):
@@ -444,7 +461,22 @@ class NNShared(NNBase):
         return 0.5 * (self.b + self.b2)
 
 
-NN_KINDS = [NNPlain, NNNested, NNBuffer, NNShared]
+class NNSharedFirst(NNBase):
+    # one Parameter registered under two names, both before another Parameter
+    def __init__(self, W, b):
+        super().__init__()
+        self.b = torch.nn.Parameter(b.detach().clone(), requires_grad=b.requires_grad)
+        self.b2 = self.b
+        self.W = torch.nn.Parameter(W.detach().clone(), requires_grad=W.requires_grad)
+
+    def _W(self):
+        return self.W
+
+    def _b(self):
+        return 0.5 * (self.b + self.b2)
+
+
+NN_KINDS = [NNPlain, NNNested, NNBuffer, NNShared, NNSharedFirst]
 ALL_KINDS = EM_KINDS + NN_KINDS
 
 
